@@ -394,11 +394,13 @@ carquet_status_t carquet_statistics_build(
                 memcpy(stats->min_value, builder->min_value, builder->min_len);
             }
         }
-        if (stats->min_value) {
-            stats->min_value_len = (int32_t)builder->min_len;
-            stats->has_is_min_value_exact = true;
-            stats->is_min_value_exact = true;
+        if (!stats->min_value) {
+            /* Statistics without the minimum would silently differ */
+            return CARQUET_ERROR_OUT_OF_MEMORY;
         }
+        stats->min_value_len = (int32_t)builder->min_len;
+        stats->has_is_min_value_exact = true;
+        stats->is_min_value_exact = true;
     }
 
     /* Max value */
@@ -412,11 +414,17 @@ carquet_status_t carquet_statistics_build(
                 memcpy(stats->max_value, builder->max_value, builder->max_len);
             }
         }
-        if (stats->max_value) {
-            stats->max_value_len = (int32_t)builder->max_len;
-            stats->has_is_max_value_exact = true;
-            stats->is_max_value_exact = true;
+        if (!stats->max_value) {
+            if (!arena) {
+                free(stats->min_value);
+            }
+            stats->min_value = NULL;
+            stats->min_value_len = 0;
+            return CARQUET_ERROR_OUT_OF_MEMORY;
         }
+        stats->max_value_len = (int32_t)builder->max_len;
+        stats->has_is_max_value_exact = true;
+        stats->is_max_value_exact = true;
     }
 
     return CARQUET_OK;
